@@ -549,3 +549,24 @@ func (e *Explorer) explore(prefix []int, used int, depth int) {
 		// the default choice at point i costs nothing
 	}
 }
+
+// ---- scheduling points for hand-hooked seams --------------------------------
+
+// Exploring reports whether a controlled execution is in progress.
+func Exploring() bool { return active != nil }
+
+// Yield is a scheduling point before an operation named op that never blocks.
+// It is a no-op outside an exploration.
+func Yield(op string) {
+	if s := active; s != nil {
+		s.point(op, nil)
+	}
+}
+
+// Block is a scheduling point at which the caller may only continue once
+// enabled() holds (a modelled wait). It is a no-op outside an exploration.
+func Block(op string, enabled func() bool) {
+	if s := active; s != nil {
+		s.point(op, enabled)
+	}
+}
